@@ -601,9 +601,11 @@ fn multisets(alpha: &[Req], k: usize) -> Vec<Vec<Req>> {
 fn concurrent_part(rep: &Report, tpl: &Template, tier: Tier, deadline: Instant) -> (u64, u64, usize, usize, Option<String>) {
     install_gate();
     let alpha = [Req::Ins1, Req::Upd1, Req::UpdB2, Req::Del1, Req::PkDupAt(2), Req::Upd1Same, Req::Ins12];
+    // quick: every pair of requests (deterministic work); thorough: triples too
     let mut sets = multisets(&alpha, 2);
-    sets.extend(multisets(&alpha, 3));
-    let _ = tier;
+    if tier == Tier::Thorough {
+        sets.extend(multisets(&alpha, 3));
+    }
     let mut schedules = 0u64;
     let mut actions = 0u64;
     let mut done_sets = 0usize;
@@ -742,7 +744,7 @@ fn main() {
     special.extend(seqs);
     let seqs = special;
 
-    let deadline = Instant::now() + Duration::from_secs(cli.tier.pick(30, 900));
+    let deadline = Instant::now() + Duration::from_secs(cli.tier.pick(200, 900));
     let mut execs = 0u64;
     let mut steps = 0u64;
     let mut capped = None;
@@ -773,7 +775,7 @@ fn main() {
             rep.sample(json!({"seq": seq}));
         }
     }
-    let (cs, ca, csets, csets_total, ccap) = concurrent_part(&rep, &tpl, cli.tier, Instant::now() + Duration::from_secs(cli.tier.pick(25, 900)));
+    let (cs, ca, csets, csets_total, ccap) = concurrent_part(&rep, &tpl, cli.tier, Instant::now() + Duration::from_secs(cli.tier.pick(200, 900)));
     rep.set("concurrent", json!({"schedules": cs, "actions": ca, "request_sets_fully_explored": csets, "request_sets": csets_total, "cap": ccap,
         "what": "multisets of 2 and 3 requests over {Ins1, Upd1, UpdB2, Del1, PkDupAt(2), Upd1Same, Ins12}: every order of their critical sections x every placement of each version's announcement task after its commit (gate at the start of broadcast_changes)"}));
     if ccap.is_some() {
